@@ -17,7 +17,7 @@ func pickVersion(t *sim.Tape) gmsl.RoomVersion {
 	var pool []gmsl.RoomVersion
 	for _, v := range world.Versions() {
 		if v == gmsl.RoomVersionPseudoIDs {
-			continue // pseudo-ID rooms need a sender-key directory; not modelled
+			continue // generated histories are not pseudo-ID rooms (c15pseudo.go runs send_join in one, without a history)
 		}
 		w := 1
 		switch v {
@@ -77,7 +77,7 @@ func TestEngine(t *testing.T) {
 		Rule: func(p string) string {
 			base := "one run = one world of 2-3 servers (compact ledger keys) and one room (version drawn from the whole registry except the pseudo-ID version, weighted towards 8-12 and 1) whose history of 3-30 events is generated fault-free with the real EventBuilder.AddAuthEvents/Build (honest users: joins incl. restricted joins counter-signed by the authorising server, invites counter-signed by the invited server, knocks, bans/kicks, power levels, join rules public/invite/knock/restricted/knock_restricted, topic/custom state, messages forking off older events and merged back); "
 			if p == "C15" {
-				return base + "then the room is steered into a tape-chosen situation for a user of the asking server J (banned / invited / joined / another join rule) and ONE handshake runs with 0-3 parameter, event-shape, signature (corrupt, stripped, wrong key, key expired by rotation + clock advance, timestamp beyond key validity under a real KeyRing) or querier faults: HandleMakeJoin, HandleMakeLeave, HandleSendJoin, HandleInvite (directly), HandleInviteV3 (request checks only), PerformJoin through a FederatedJoinClient stub that calls the resident's real HandleMakeJoin/HandleSendJoin and assembles the send_join response from the resident's store (template / create-event / returned-event / state faults), PerformInvite through a FederatedInviteClient stub calling the real HandleInvite; oracle = independent guard predicate per handler transcribed from the property text; non-trivial = at least one fault fired; distinct = distinct event-log hash"
+				return base + "then the room is steered into a tape-chosen situation for a user of the asking server J (banned / invited / joined / another join rule) and ONE handshake runs with 0-3 parameter, event-shape, signature (corrupt, stripped, wrong key, key expired by rotation + clock advance, timestamp beyond key validity under a real KeyRing) or querier faults: HandleMakeJoin, HandleMakeLeave, HandleSendJoin (also in a pseudo-ID room: sender = per-room key signing the event, mxid_mapping vouched for - or not - by the user's server, directory and membership store keyed by sender key; mapping / event-signature / directory / ban faults), HandleInvite (directly), HandleInviteV3 (request checks only), PerformJoin through a FederatedJoinClient stub that calls the resident's real HandleMakeJoin/HandleSendJoin and assembles the send_join response from the resident's store (template / create-event / returned-event / state faults), PerformInvite through a FederatedInviteClient stub calling the real HandleInvite; oracle = independent guard predicate per handler transcribed from the property text; non-trivial = at least one fault fired; distinct = distinct event-log hash"
 			}
 			return base + "then 2-4 operations, each assembling the resident's answer (/state before an event, /send_join for a join built on the tip or on a stale base, auth chain of an event through a scripted EventProvider, state before an event through a scripted StateProvider or the real FederatedStateProvider over /state_ids + /state answers, a /backfill batch through LoadAndVerify, RequestBackfill over 1-2 servers) and giving a tape-chosen subset of 0-5 events one fault each (signature corrupt / stripped / wrong key, rebuilt-and-resigned event not allowed by its auth events, cited auth event removed with the provider returning it / nothing / an error, event of another room, non-state event, duplicate state key, malformed entry, duplicate listing, Byzantine child citing a refused parent, event citing stale auth events, reordering, key-ring failure, ctx cancellation inside a provider callback); oracle = reference model computing which events carry which fault and re-deriving allowed-ness with Allowed on exactly the verified-or-provided auth events; non-trivial = at least one fault fired; distinct = distinct event-log hash"
 		},
@@ -86,6 +86,6 @@ func TestEngine(t *testing.T) {
 		Stub: []string{"resident's and asker's event stores (generated history)", "EventProvider / StateProvider / BackfillRequester / FederatedStateClient (scripted)", "FederatedJoinClient / FederatedInviteClient (in-process transport calling the peer's real handler)",
 			"RestrictedRoomJoinQuerier / MembershipQuerier / RoomQuerier / StateQuerier (answering from the resident's store, with scripted lies and errors)", "JSONVerifier = ledger of published keys (world.Verifier) or real KeyRing over a ledger database", "clock (synctest bubble)"},
 		Assumptions: []string{"per-event Allowed verdicts (property C07) are trusted inside the reference models", "signature verification of a single event (C06) is trusted: ground truth is which events were given a signature fault",
-			"event-provider answers outside the property's quantifier (another event than the one asked for) are exercised as probes only", "guards are evaluated on the queriers' answers (what the handler can know)", "the pseudo-ID room version is not exercised"},
+			"event-provider answers outside the property's quantifier (another event than the one asked for) are exercised as probes only", "guards are evaluated on the queriers' answers (what the handler can know)", "of the pseudo-ID room version only HandleSendJoin is exercised (C15), on a join citing made-up ancestors: the handler does not look at the room's DAG"},
 	})
 }
